@@ -10,7 +10,7 @@ CONSTANTS USlots = {1, 2}
   Pre <- PreSmall
   MemPool <- MemSmall
   Toks <- TokQuick
-  MaxTok = 5
+  MaxTok = 4
   MaxMut = 2
   GenDepth = 0
 INVARIANTS TypeOK GrammarAgrees MemNumbers
